@@ -727,14 +727,14 @@ theorem getLoss_nn0 (lossFn : List (Option α) → List (Option (List α)) → L
   rfl
 
 
-/-! ## the in-box hypothesis cannot be dropped
+/-! ## the history that used to need the in-box hypothesis
 
 History (bounds `[0, 10]`, `nn = 0`, `factor = 1`, all values `[0]`): a forced `tell_many` of the
-points `2, 3, 4` (batch path: `bboxX = (2, 4)`, `scaleX = 2`), then `tell 8` (inside the bounds,
-outside the x-box: `scaleX = 6`).  With the loss function "scaled width of the interval" the entry
-of `(2, 3)` is still `1/2` although the loss recomputed on the final state is `1/6`: both
-`RealVals` and the conclusion of `exact_values_of_factor_one` fail; only `RunInBox` is violated. -/
-section counterexample
+points `2, 3, 4`, then `tell 8`.  Before the repair `fix: Learner1D.tell_many batch path shrank the
+x-scale` the batch path set `bboxX = (2, 4)`, `scaleX = 2`, the later `tell` widened the scale to `6`
+and the entry of `(2, 3)` stayed `1/2` although the loss recomputed on the final state is `1/6`.
+Now the x-box contains the domain and the stored entry is the recomputed one. -/
+section formerCounterexample
 
 def ceLoss : List (Option Rat) → List (Option (List Rat)) → Loss Rat
   | [some a, some b], _ => .fin (b - a)
@@ -744,37 +744,11 @@ def ceOps : List (Op Rat) := [.tellMany [(2, [0]), (3, [0]), (4, [0])] true, .te
 
 def ceState : State Rat := run ceLoss id (init (0 : Rat) 10 1 0 0) ceOps
 
-example : ∀ op ∈ ceOps, OpDim 1 op := by
-  intro op hop kv hkv
-  simp only [ceOps, List.mem_cons, List.not_mem_nil, or_false] at hop
-  rcases hop with rfl | rfl
-  · simp only [tellsOf, List.mem_cons, List.not_mem_nil, or_false] at hkv
-    rcases hkv with rfl | rfl | rfl <;> rfl
-  · simp only [tellsOf, List.mem_cons, List.not_mem_nil, or_false] at hkv
-    rw [hkv]; rfl
-
-example : lget (2, 3) ceState.losses = some (.fin (1 / 2)) ∧
-    getLoss ceLoss ceState 2 3 = .fin (1 / 6) ∧ (2, 3) ∈ pairs ceState.xs := by
+example : lget (2, 3) ceState.losses = some (.fin (1 / 10)) ∧
+    getLoss ceLoss ceState 2 3 = .fin (1 / 10) ∧ (2, 3) ∈ pairs ceState.xs ∧
+    ceState.bboxX = (0, 10) := by
   decide +kernel
 
-theorem ceLoss_ys (xs : List (Option Rat)) (ys ys' : List (Option (List Rat))) :
-    ceLoss xs ys = ceLoss xs ys' := by
-  unfold ceLoss; split <;> rfl
-
-theorem ce_getLossAt (s : State Rat) (sy a b : Rat) :
-    getLossAt ceLoss s sy a b = getLoss ceLoss s a b := by
-  unfold getLossAt getLoss
-  dsimp only
-  split
-  · rfl
-  · exact ceLoss_ys _ _ _
-
-theorem ce_not_realVals : ¬ RealVals ceLoss ceState := by
-  intro h
-  obtain ⟨sy, -, -, h3⟩ := h (2, 3) (by decide +kernel)
-  have e : lget (2, 3) ceState.losses ≠ some (getLoss ceLoss ceState 2 3) := by decide +kernel
-  exact e (by rw [h3, ce_getLossAt])
-
-end counterexample
+end formerCounterexample
 
 end L1D
